@@ -133,21 +133,19 @@ func ruleNUMWIDTH1(c *Ctx) {
 			c.Undecide(spec.fn, "function missing")
 			continue
 		}
-		info := f.Info()
-		decl := p.enclosingDecl(f)
-		if decl == nil {
-			decl = f
-		}
+		// the parse may sit in a private helper of the closure (extract-method): look through the scope
+		holder := f
 		var parsed *types.Var
 		var parseCall *ast.CallExpr
-		InspectNoLit(f.Body(), func(nd ast.Node) bool {
+		p.InspectScope(f, func(g *FuncInfo, nd ast.Node) bool {
 			as, ok := nd.(*ast.AssignStmt)
 			if !ok || len(as.Rhs) != 1 {
 				return true
 			}
-			if call, ok := ast.Unparen(as.Rhs[0]).(*ast.CallExpr); ok && FuncCall(info, call, "jsonwire", "ParseUint") && len(as.Lhs) == 2 {
-				parsed, _ = IdentObj(info, as.Lhs[0]).(*types.Var)
+			if call, ok := ast.Unparen(as.Rhs[0]).(*ast.CallExpr); ok && FuncCall(g.Info(), call, "jsonwire", "ParseUint") && len(as.Lhs) == 2 && parsed == nil {
+				parsed, _ = IdentObj(g.Info(), as.Lhs[0]).(*types.Var)
 				parseCall = call
+				holder = g
 			}
 			return true
 		})
@@ -155,35 +153,10 @@ func ruleNUMWIDTH1(c *Ctx) {
 			c.Violation("range-test:"+spec.fn, f.Pos(), "the integer literal is not parsed with jsonwire.ParseUint (digits only: a fraction or exponent must be refused)")
 			continue
 		}
+		f = holder
+		info := f.Info()
 		// every ordered comparison of the parsed magnitude is against something derived from the width
-		var dependsOnBits func(e ast.Expr, depth int) bool
-		dependsOnBits = func(e ast.Expr, depth int) bool {
-			found := false
-			ast.Inspect(e, func(nd ast.Node) bool {
-				id, ok := nd.(*ast.Ident)
-				if !ok || found {
-					return !found
-				}
-				v, _ := IdentObj(info, id).(*types.Var)
-				if v == nil || v == parsed {
-					return true
-				}
-				for _, d := range defsOf(info, decl.Body(), v) {
-					if call, ok := ast.Unparen(d).(*ast.CallExpr); ok {
-						if sel, ok := ast.Unparen(call.Fun).(*ast.SelectorExpr); ok && sel.Sel.Name == "Bits" {
-							found = true
-							return false
-						}
-					}
-					if depth < 4 && dependsOnBits(d, depth+1) {
-						found = true
-						return false
-					}
-				}
-				return true
-			})
-			return found
-		}
+		dependsOnBits := func(e ast.Expr, depth int) bool { return derivesFromBits(p, f, e, parsed, depth) }
 		nCmp, bad := 0, ""
 		InspectNoLit(f.Body(), func(nd ast.Node) bool {
 			be, ok := nd.(*ast.BinaryExpr)
@@ -244,4 +217,77 @@ func isParamOf(f, decl *FuncInfo, v *types.Var) bool {
 		}
 	}
 	return false
+}
+
+// derivesFromBits reports whether expression e, evaluated in function fn,
+// mentions a variable whose definitions lead back to a reflect.Type.Bits()
+// call — through local definitions and, for a parameter of a helper, through
+// the corresponding argument at every call of that helper.
+func derivesFromBits(p *Program, fn *FuncInfo, e ast.Expr, skip types.Object, depth int) bool {
+	if depth > 6 {
+		return false
+	}
+	info := fn.Info()
+	root := fn
+	if d := p.enclosingDecl(fn); d != nil {
+		root = d
+	}
+	found := false
+	ast.Inspect(e, func(nd ast.Node) bool {
+		if found {
+			return false
+		}
+		if call, ok := nd.(*ast.CallExpr); ok {
+			if sel, ok := ast.Unparen(call.Fun).(*ast.SelectorExpr); ok && sel.Sel.Name == "Bits" {
+				found = true
+				return false
+			}
+		}
+		id, ok := nd.(*ast.Ident)
+		if !ok {
+			return true
+		}
+		v, _ := IdentObj(info, id).(*types.Var)
+		if v == nil || v == skip || v.IsField() {
+			return true
+		}
+		for _, d := range defsOf(info, root.Body(), v) {
+			if derivesFromBits(p, fn, d, skip, depth+1) {
+				found = true
+				return false
+			}
+		}
+		// a parameter of a helper: the argument at each call site
+		if root.Obj != nil {
+			sig := root.Obj.Type().(*types.Signature)
+			for i := 0; i < sig.Params().Len(); i++ {
+				if sig.Params().At(i) != v {
+					continue
+				}
+				callers := callersOf(p, root.Obj)
+				okAll := len(callers) > 0
+				for _, cf := range callers {
+					cinfo := cf.Info()
+					hit := false
+					InspectNoLit(cf.Body(), func(x ast.Node) bool {
+						if call, ok := x.(*ast.CallExpr); ok && Callee(cinfo, call) == root.Obj && i < len(call.Args) {
+							if derivesFromBits(p, cf, call.Args[i], nil, depth+1) {
+								hit = true
+							}
+						}
+						return true
+					})
+					if !hit {
+						okAll = false
+					}
+				}
+				if okAll {
+					found = true
+					return false
+				}
+			}
+		}
+		return true
+	})
+	return found
 }
